@@ -153,8 +153,15 @@ func classify(t string) (tokClass, int) {
 	if !allDigits(s) {
 		return tokName, 0
 	}
-	if len(s) > 9 || (len(s) > 1 && s[0] == '0') || (neg && s == "0") {
+	if (len(s) > 1 && s[0] == '0') || (neg && s == "0") {
 		return tokNonCanon, 0
+	}
+	if len(s) > 9 {
+		// canonical but far beyond any array this harness builds: simply out of range
+		if neg {
+			return tokNeg, -(1 << 40)
+		}
+		return tokIndex, 1 << 40
 	}
 	n := 0
 	for _, c := range s {
